@@ -329,6 +329,22 @@ Definition string_to_uint (maxv : N) (s : str) : parsed :=
 Definition UINT32_MAX : N := 4294967295.
 Definition UINT8_MAX : N := 255.
 
+(* ---------------------------------------------------------------- typed setters / getters *)
+Definition s_true : str := [116; 114; 117; 101].            (* BoolValidator::ENABLED *)
+Definition s_false : str := [102; 97; 108; 115; 101].       (* BoolValidator::DISABLED *)
+(* IntToString(int) *)
+Definition dec_z (z : Z) : str :=
+  if (z <? 0)%Z then 45 :: dec (Z.to_N (- z)) else dec (Z.to_N z).
+(* SetValue(key, unsigned int) / SetValue(key, int) / SetMultipleValue(key, unsigned int) *)
+Definition set_value_uint (k : str) (n : N) (m : pmap) : pmap := set_value k (dec n) m.
+Definition set_value_int (k : str) (z : Z) (m : pmap) : pmap := set_value k (dec_z z) m.
+Definition set_multiple_value_uint (k : str) (n : N) (m : pmap) : pmap := set_multiple_value k (dec n) m.
+(* SetValueAsBool / GetValueAsBool *)
+Definition set_value_bool (k : str) (b : bool) (m : pmap) : pmap :=
+  set_value k (if b then s_true else s_false) m.
+Definition get_value_bool (k : str) (m : pmap) : bool :=
+  match mm_find k m with Some v => str_eqb v s_true | None => false end.
+
 (* ---------------------------------------------------------------- universe settings *)
 Definition s_uni : str := [117; 110; 105; 95].                 (* "uni_" *)
 Definition s_name : str := [95; 110; 97; 109; 101].            (* "_name" *)
